@@ -482,13 +482,26 @@ pub open spec fn kids_progress<const K: usize>(ks: Seq<(usize, usize)>, cp: AffN
     &&& cp.isleaf <==> i == 0
 }
 
+// every node is a node of the tree as it was when this terminal was taken up, or a copy
+#[verifier::opaque]
+pub open spec fn dom_cover<const K: usize>(a: AArena<K>, dom0: Set<usize>, phi: Map<usize, usize>) -> bool {
+    forall|i: usize| #[trigger] a.dom().contains(i) ==> dom0.contains(i) || exists|p: usize| phi.dom().contains(p) && #[trigger] phi[p] == i
+}
+// where the terminals of the current tree come from: untouched terminals of the old tree (not among the first t listed ones), or copies of terminals of the left operand
+#[verifier::opaque]
+pub open spec fn leaves_from<const K: usize>(a: AArena<K>, a0: AArena<K>, al: AArena<K>, ts: Seq<usize>, t: int) -> bool {
+    forall|i: usize| a.dom().contains(i) && #[trigger] a[i].isleaf ==>
+        (a0.dom().contains(i) && a0[i].isleaf && a[i] == a0[i] && (forall|j: int| 0 <= j < t && j < ts.len() ==> ts[j] != i))
+        || (exists|p: usize| al.dom().contains(p) && (#[trigger] al[p]).isleaf && a[i].value.aff.mat.nrows() == al[p].value.aff.mat.nrows())
+}
+
 // taking up terminal number t
 pub proof fn lemma_pick<const K: usize>(a0: AArena<K>, a: AArena<K>, ts: Seq<usize>, t: int, dl: usize, in_dim: usize)
     requires terminals_ok(a0, ts, dl), old_nodes_kept(a0, a, ts), untouched(a0, a, ts, t), leaf_ok(a), aff_shape_ok(a, in_dim), 0 <= t < ts.len()
     ensures a.dom().contains(ts[t]), a[ts[t]] == a0[ts[t]], a[ts[t]].isleaf, no_kids(a[ts[t]]), a0.dom().contains(ts[t]),
         a[ts[t]].value.aff.mat.nrows() == dl, a[ts[t]].value.aff.ok(), a[ts[t]].value.aff.mat.ncols() == in_dim,
 {
-    reveal(terminals_ok); reveal(old_nodes_kept); reveal(frame_except); reveal(graft_inv); reveal(stack_ok); reveal(grafted); reveal(untouched); reveal(grafted_upto); reveal(kids_progress);
+    reveal(terminals_ok); reveal(old_nodes_kept); reveal(frame_except); reveal(graft_inv); reveal(stack_ok); reveal(grafted); reveal(untouched); reveal(grafted_upto); reveal(kids_progress); reveal(dom_cover); reveal(leaves_from);
     assert(a0.dom().contains(ts[t]));
     assert(a[ts[t]] == a0[ts[t]]);
 }
@@ -500,9 +513,9 @@ pub proof fn lemma_start<const K: usize>(al: AArena<K>, a_s: AArena<K>, a: AAren
         copy_ok(al[rl], a[t], fm, fb, in_dim),
     ensures graft_inv(al, a, a_s.dom(), Map::<usize, usize>::empty().insert(rl, t), Set::<usize>::empty(), None, rl, t, fm, fb, in_dim),
         stack_ok(Map::<usize, usize>::empty().insert(rl, t), Set::<usize>::empty(), None, seq![(rl, t)]),
-        frame_except(a_s, a, t), aff_shape_ok(a, in_dim),
+        frame_except(a_s, a, t), aff_shape_ok(a, in_dim), dom_cover(a, a_s.dom(), Map::<usize, usize>::empty().insert(rl, t)),
 {
-    reveal(terminals_ok); reveal(old_nodes_kept); reveal(frame_except); reveal(graft_inv); reveal(stack_ok); reveal(grafted); reveal(untouched); reveal(grafted_upto); reveal(kids_progress);
+    reveal(terminals_ok); reveal(old_nodes_kept); reveal(frame_except); reveal(graft_inv); reveal(stack_ok); reveal(grafted); reveal(untouched); reveal(grafted_upto); reveal(kids_progress); reveal(dom_cover); reveal(leaves_from);
     assert(a[t].isleaf && a[t].children == a_s[t].children);
     assert(no_kids(a[t]));
     lemma_graft_init(al, a, a_s.dom(), rl, t, fm, fb, in_dim);
@@ -522,7 +535,7 @@ pub proof fn lemma_pop_ex<const K: usize>(al: AArena<K>, rootl: Option<usize>, a
         al.dom().contains(it.0), a.dom().contains(it.1), copy_ok(al[it.0], a[it.1], fm, fb, in_dim),
         kids_progress(kid_seq(al[it.0].children, 0), a[it.1], phi, 0),
 {
-    reveal(terminals_ok); reveal(old_nodes_kept); reveal(frame_except); reveal(graft_inv); reveal(stack_ok); reveal(grafted); reveal(untouched); reveal(grafted_upto); reveal(kids_progress);
+    reveal(terminals_ok); reveal(old_nodes_kept); reveal(frame_except); reveal(graft_inv); reveal(stack_ok); reveal(grafted); reveal(untouched); reveal(grafted_upto); reveal(kids_progress); reveal(dom_cover); reveal(leaves_from);
     let s0 = choose|s0: Seq<(usize, usize)>| #[trigger] stack_ok(phi, done, None, s0) && s0.len() > 0 && s0.last() == it && s0.drop_last() == st;
     lemma_graft_pop(al, a, dom0, phi, done, rl, t, fm, fb, in_dim, s0);
     lemma_kid_seq_members(al[it.0].children, 0);
@@ -537,7 +550,7 @@ pub proof fn lemma_child_step<const K: usize>(al: AArena<K>, rootl: Option<usize
     rl: usize, t: usize, fm: M, fb: V, in_dim: usize, st: Seq<(usize, usize)>, p0: usize, i: int, c: usize)
     requires graft_inv(al, a0, a_s.dom(), phi, done, Some(p0), rl, t, fm, fb, in_dim), stack_ok(phi, done, Some(p0), st),
         phi.dom().contains(p0), !done.contains(p0), al.dom().contains(p0), wf_at(al, rootl), aff_shape_ok(al, dl),
-        frame_except(a_s, a0, t), aff_shape_ok(a0, in_dim),
+        frame_except(a_s, a0, t), aff_shape_ok(a0, in_dim), dom_cover(a0, a_s.dom(), phi),
         0 <= i < kid_seq(al[p0].children, 0).len(), kids_progress(kid_seq(al[p0].children, 0), a0[phi[p0]], phi, i),
         a0[phi[p0]].value.aff.mat.nrows() == al[p0].value.aff.mat.nrows(),
         child_added(a0, a1, phi[p0], kid_seq(al[p0].children, 0)[i].0, c), a1[phi[p0]].value == a0[phi[p0]].value,
@@ -547,8 +560,9 @@ pub proof fn lemma_child_step<const K: usize>(al: AArena<K>, rootl: Option<usize
         stack_ok(phi.insert(kid_seq(al[p0].children, 0)[i].1, c), done, Some(p0), st.push((kid_seq(al[p0].children, 0)[i].1, c))),
         frame_except(a_s, a1, t), aff_shape_ok(a1, in_dim),
         kids_progress(kid_seq(al[p0].children, 0), a1[phi[p0]], phi.insert(kid_seq(al[p0].children, 0)[i].1, c), i + 1),
+        dom_cover(a1, a_s.dom(), phi.insert(kid_seq(al[p0].children, 0)[i].1, c)),
 {
-    reveal(terminals_ok); reveal(old_nodes_kept); reveal(frame_except); reveal(graft_inv); reveal(stack_ok); reveal(grafted); reveal(untouched); reveal(grafted_upto); reveal(kids_progress);
+    reveal(terminals_ok); reveal(old_nodes_kept); reveal(frame_except); reveal(graft_inv); reveal(stack_ok); reveal(grafted); reveal(untouched); reveal(grafted_upto); reveal(kids_progress); reveal(dom_cover); reveal(leaves_from);
     let ks = kid_seq(al[p0].children, 0);
     let label = ks[i].0;
     let c0 = ks[i].1;
@@ -561,6 +575,17 @@ pub proof fn lemma_child_step<const K: usize>(al: AArena<K>, rootl: Option<usize
     lemma_shape_child(al, a0, a1, in_dim, dl, p0, p1, label, c);
     let phi1 = phi.insert(c0, c);
     let cp = a1[p1];
+    assert forall|j: usize| #[trigger] a1.dom().contains(j) implies a_s.dom().contains(j) || exists|p: usize| phi1.dom().contains(p) && #[trigger] phi1[p] == j by {
+        if j == c { assert(phi1.dom().contains(c0) && phi1[c0] == c); }
+        else {
+            assert(a0.dom().contains(j));
+            if !a_s.dom().contains(j) {
+                let p = choose|p: usize| phi.dom().contains(p) && #[trigger] phi[p] == j;
+                assert(p != c0);
+                assert(phi1.dom().contains(p) && phi1[p] == j);
+            }
+        }
+    }
     assert forall|l: int| 0 <= l < K && l != label implies cp.children[l] == a0[p1].children[l] by { assert(cp.children@[l] == a0[p1].children@[l]); }
     assert(cp.children[label as int] == Some(c)) by { assert(cp.children@[label as int] == Some(c)); }
     assert forall|j: int| i + 1 <= j < ks.len() implies cp.children[(#[trigger] ks[j]).0 as int].is_none() && !phi1.dom().contains(ks[j].1) by {
@@ -592,7 +617,7 @@ pub proof fn lemma_node_done<const K: usize>(al: AArena<K>, rootl: Option<usize>
         kids_progress(kid_seq(al[p0].children, 0), a[phi[p0]], phi, kid_seq(al[p0].children, 0).len() as int),
     ensures graft_inv(al, a, dom0, phi, done.insert(p0), None, rl, t, fm, fb, in_dim), stack_ok(phi, done.insert(p0), None, st),
 {
-    reveal(terminals_ok); reveal(old_nodes_kept); reveal(frame_except); reveal(graft_inv); reveal(stack_ok); reveal(grafted); reveal(untouched); reveal(grafted_upto); reveal(kids_progress);
+    reveal(terminals_ok); reveal(old_nodes_kept); reveal(frame_except); reveal(graft_inv); reveal(stack_ok); reveal(grafted); reveal(untouched); reveal(grafted_upto); reveal(kids_progress); reveal(dom_cover); reveal(leaves_from);
     lemma_mirror_from_kids(al[p0], a[phi[p0]], phi);
     lemma_graft_done(al, a, dom0, phi, done, rl, t, fm, fb, in_dim, st, p0);
 }
@@ -604,13 +629,39 @@ pub proof fn lemma_terminal_done<const K: usize>(al: AArena<K>, a0: AArena<K>, a
         frame_except(a_s, a, ts[t - 1]),
         graft_inv(al, a, a_s.dom(), phi, done, None, rl, ts[t - 1], fm, fb, in_dim), stack_ok(phi, done, None, Seq::<(usize, usize)>::empty()),
         fm == a0[ts[t - 1]].value.aff.mat.m(), fb == a0[ts[t - 1]].value.aff.bias.v(),
-    ensures old_nodes_kept(a0, a, ts), untouched(a0, a, ts, t), grafted_upto(al, a, a0, rl, ts, t, in_dim),
+        leaves_from(a_s, a0, al, ts, t - 1), dom_cover(a, a_s.dom(), phi),
+    ensures old_nodes_kept(a0, a, ts), untouched(a0, a, ts, t), grafted_upto(al, a, a0, rl, ts, t, in_dim), leaves_from(a, a0, al, ts, t),
 {
-    reveal(terminals_ok); reveal(old_nodes_kept); reveal(frame_except); reveal(graft_inv); reveal(stack_ok); reveal(grafted); reveal(untouched); reveal(grafted_upto); reveal(kids_progress);
+    reveal(terminals_ok); reveal(old_nodes_kept); reveal(frame_except); reveal(graft_inv); reveal(stack_ok); reveal(grafted); reveal(untouched); reveal(grafted_upto); reveal(kids_progress); reveal(dom_cover); reveal(leaves_from);
     let tt = ts[t - 1];
     assert(a0.dom().contains(tt) && a0[tt].isleaf);
     assert(ts.contains(tt));
     assert forall|i: usize| a0.dom().contains(i) implies #[trigger] a_s.dom().contains(i) by { }
+    // provenance of the terminals
+    assert forall|p: usize| #[trigger] phi.dom().contains(p) implies done.contains(p) by {
+        if !done.contains(p) {
+            let j = choose|j: int| 0 <= j < Seq::<(usize, usize)>::empty().len() && (#[trigger] Seq::<(usize, usize)>::empty()[j]).0 == p;
+        }
+    }
+    assert forall|i: usize| a.dom().contains(i) && #[trigger] a[i].isleaf implies
+        (a0.dom().contains(i) && a0[i].isleaf && a[i] == a0[i] && (forall|j: int| 0 <= j < t && j < ts.len() ==> ts[j] != i))
+        || (exists|p: usize| al.dom().contains(p) && (#[trigger] al[p]).isleaf && a[i].value.aff.mat.nrows() == al[p].value.aff.mat.nrows()) by {
+        if exists|p: usize| phi.dom().contains(p) && #[trigger] phi[p] == i {
+            let p = choose|p: usize| phi.dom().contains(p) && #[trigger] phi[p] == i;
+            assert(done.contains(p));
+            assert(kids_mirror(al[p], a[phi[p]], phi));
+            assert(copy_ok(al[p], a[phi[p]], fm, fb, in_dim));
+            assert(al.dom().contains(p) && al[p].isleaf);
+        } else {
+            assert(a_s.dom().contains(i));
+            assert(i != tt) by { if i == tt { assert(phi.dom().contains(rl) && phi[rl] == i); } }
+            assert(a[i] == a_s[i]);
+            assert(a_s[i].isleaf);
+            if a0.dom().contains(i) && a0[i].isleaf && a_s[i] == a0[i] && (forall|j: int| 0 <= j < t - 1 && j < ts.len() ==> ts[j] != i) {
+                assert forall|j: int| 0 <= j < t && j < ts.len() implies ts[j] != i by {}
+            }
+        }
+    }
     lemma_graft_finish(al, a, a_s.dom(), a0.dom(), phi, done, rl, tt, fm, fb, in_dim);
     assert forall|j: int| 0 <= j < t && j < ts.len() implies grafted(al, a, a0.dom(), rl, #[trigger] ts[j], a0[ts[j]].value.aff.mat.m(), a0[ts[j]].value.aff.bias.v(), in_dim) by {
         if j < t - 1 {
@@ -628,16 +679,19 @@ pub proof fn lemma_terminal_done<const K: usize>(al: AArena<K>, a0: AArena<K>, a
 }
 
 pub proof fn lemma_outer_init<const K: usize>(al: AArena<K>, a0: AArena<K>, rl: usize, ts: Seq<usize>, in_dim: usize)
-    ensures old_nodes_kept(a0, a0, ts), untouched(a0, a0, ts, 0), grafted_upto(al, a0, a0, rl, ts, 0, in_dim)
+    ensures old_nodes_kept(a0, a0, ts), untouched(a0, a0, ts, 0), grafted_upto(al, a0, a0, rl, ts, 0, in_dim), leaves_from(a0, a0, al, ts, 0)
 {
-    reveal(terminals_ok); reveal(old_nodes_kept); reveal(frame_except); reveal(graft_inv); reveal(stack_ok); reveal(grafted); reveal(untouched); reveal(grafted_upto); reveal(kids_progress);
+    reveal(terminals_ok); reveal(old_nodes_kept); reveal(frame_except); reveal(graft_inv); reveal(stack_ok); reveal(grafted); reveal(untouched); reveal(grafted_upto); reveal(kids_progress); reveal(dom_cover); reveal(leaves_from);
 }
 
 pub proof fn lemma_outer_exit<const K: usize>(al: AArena<K>, a0: AArena<K>, a: AArena<K>, rl: usize, ts: Seq<usize>, in_dim: usize)
-    requires grafted_upto(al, a, a0, rl, ts, ts.len() as int, in_dim)
-    ensures forall|j: int| 0 <= j < ts.len() ==> grafted(al, a, a0.dom(), rl, #[trigger] ts[j], a0[ts[j]].value.aff.mat.m(), a0[ts[j]].value.aff.bias.v(), in_dim)
+    requires grafted_upto(al, a, a0, rl, ts, ts.len() as int, in_dim), leaves_from(a, a0, al, ts, ts.len() as int)
+    ensures forall|j: int| 0 <= j < ts.len() ==> grafted(al, a, a0.dom(), rl, #[trigger] ts[j], a0[ts[j]].value.aff.mat.m(), a0[ts[j]].value.aff.bias.v(), in_dim),
+        // every terminal of the result is an unlisted terminal of the old tree or has the output dimension of a terminal of the left operand
+        forall|i: usize| a.dom().contains(i) && #[trigger] a[i].isleaf ==> (a0.dom().contains(i) && a0[i].isleaf && !ts.contains(i) && a[i] == a0[i])
+            || (exists|p: usize| al.dom().contains(p) && (#[trigger] al[p]).isleaf && a[i].value.aff.mat.nrows() == al[p].value.aff.mat.nrows()),
 {
-    reveal(terminals_ok); reveal(old_nodes_kept); reveal(frame_except); reveal(graft_inv); reveal(stack_ok); reveal(grafted); reveal(untouched); reveal(grafted_upto); reveal(kids_progress);
+    reveal(terminals_ok); reveal(old_nodes_kept); reveal(frame_except); reveal(graft_inv); reveal(stack_ok); reveal(grafted); reveal(untouched); reveal(grafted_upto); reveal(kids_progress); reveal(dom_cover); reveal(leaves_from);
 }
 
 // rule I8 + the facts compose needs about the list: all terminals, each once, each feeding the left operand
@@ -692,6 +746,10 @@ impl<const K: usize> AffTree<K> {
         // C02: below every listed terminal hangs a complete copy of the left operand (label for label), each copied node composed with the terminal's function
         forall|j: int| 0 <= j < terminals@.len() ==> grafted(lhs.a(), final(rhs).a(), old(rhs).a().dom(), lhs.tree.root.unwrap(), #[trigger] terminals@[j],
             old(rhs).a()[terminals@[j]].value.aff.mat.m(), old(rhs).a()[terminals@[j]].value.aff.bias.v(), final(rhs).in_dim),
+        // C04: every terminal of the result is an unlisted old terminal or has the output dimension of a terminal of the left operand
+        forall|i: usize| final(rhs).a().dom().contains(i) && #[trigger] final(rhs).a()[i].isleaf ==>
+            (old(rhs).a().dom().contains(i) && old(rhs).a()[i].isleaf && !terminals@.contains(i) && final(rhs).a()[i] == old(rhs).a()[i])
+            || (exists|p: usize| lhs.a().dom().contains(p) && (#[trigger] lhs.a()[p]).isleaf && final(rhs).a()[i].value.aff.mat.nrows() == lhs.a()[p].value.aff.mat.nrows()),
         // C02, the law: for every input the result denotes "route through the old tree, continue in the left operand at a listed terminal",
         // undefinedness included
         forall|h0: Map<usize, nat>, h1: Map<usize, nat>, hl: Map<usize, nat>, x: V|
@@ -737,6 +795,7 @@ impl<const K: usize> AffTree<K> {
                 // decisions and unlisted terminals untouched; terminals still to come untouched; the earlier ones carry their copy
                 old_nodes_kept(old(rhs).a(), rhs.a(), terminals@), untouched(old(rhs).a(), rhs.a(), terminals@, __t as int),
                 grafted_upto(lhs.a(), rhs.a(), old(rhs).a(), rl, terminals@, __t as int, rhs.in_dim),
+                leaves_from(rhs.a(), old(rhs).a(), lhs.a(), terminals@, __t as int),
 //@hint loop 1 start
             let ghost a_start = rhs.a();
             proof { lemma_pick(old(rhs).a(), a_start, terminals@, __t as int, lhs.in_dim, rhs.in_dim); }
@@ -756,6 +815,7 @@ impl<const K: usize> AffTree<K> {
                     // what held when this terminal was taken up, and what has changed since
                     old_nodes_kept(old(rhs).a(), a_start, terminals@), untouched(old(rhs).a(), a_start, terminals@, __t - 1),
                     grafted_upto(lhs.a(), a_start, old(rhs).a(), rl, terminals@, __t - 1, rhs.in_dim),
+                    leaves_from(a_start, old(rhs).a(), lhs.a(), terminals@, __t - 1), dom_cover(rhs.a(), a_start.dom(), phi),
                     frame_except(a_start, rhs.a(), terminal_idx),
                     terminal_aff.ok(), terminal_aff.mat.ncols() == rhs.in_dim, terminal_aff.mat.nrows() == lhs.in_dim,
                     terminal_aff.mat.m() == old(rhs).a()[terminal_idx].value.aff.mat.m(), terminal_aff.bias.v() == old(rhs).a()[terminal_idx].value.aff.bias.v(),
@@ -777,6 +837,7 @@ impl<const K: usize> AffTree<K> {
                     // what held when this terminal was taken up, and what has changed since
                     old_nodes_kept(old(rhs).a(), a_start, terminals@), untouched(old(rhs).a(), a_start, terminals@, __t - 1),
                     grafted_upto(lhs.a(), a_start, old(rhs).a(), rl, terminals@, __t - 1, rhs.in_dim),
+                    leaves_from(a_start, old(rhs).a(), lhs.a(), terminals@, __t - 1), dom_cover(rhs.a(), a_start.dom(), phi),
                     frame_except(a_start, rhs.a(), terminal_idx),
                     terminal_aff.ok(), terminal_aff.mat.ncols() == rhs.in_dim, terminal_aff.mat.nrows() == lhs.in_dim,
                     terminal_aff.mat.m() == old(rhs).a()[terminal_idx].value.aff.mat.m(), terminal_aff.bias.v() == old(rhs).a()[terminal_idx].value.aff.bias.v(),
@@ -838,6 +899,9 @@ impl<const K: usize> AffTree<K> {
             tree_fn(final(self).a(), h1, old(self).tree.root.unwrap(), x) == and_then_fn(old(self).a(), h0, other.a(), hl, other.tree.root.unwrap(), old(self).tree.root.unwrap(), x),
         // the nodes of the receiver keep their indices
         forall|i: usize| old(self).a().dom().contains(i) ==> #[trigger] final(self).a().dom().contains(i),
+        // every terminal of the result has the output dimension of a terminal of `other`
+        forall|i: usize| final(self).a().dom().contains(i) && #[trigger] final(self).a()[i].isleaf ==>
+            exists|p: usize| other.a().dom().contains(p) && (#[trigger] other.a()[p]).isleaf && final(self).a()[i].value.aff.mat.nrows() == other.a()[p].value.aff.mat.nrows(),
 //@hint start
         proof { reveal(old_nodes_kept); }
 //@end
